@@ -13,7 +13,65 @@ def is_pager(prog, b):
     """role: a generic function that ranges over a Map parameter with a cursor turned into a Bound and a limit loop"""
     names = [call_name(t) or "" for _, t in b.calls()]
     takes_map = any("cw_storage_plus::Map<" in b.local_ty(i) for i in range(1, b.nargs + 1))
-    return b.kind == "fn" and takes_map and "cw_storage_plus::Map::range" in names and any(n.startswith("std::vec::Vec::push") for n in names) and any(n == "std::iter::Iterator::next" for n in names)
+    loop_form = any(n.startswith("std::vec::Vec::push") for n in names) and any(n == "std::iter::Iterator::next" for n in names)
+    chain_form = any(n == "std::iter::Iterator::collect" for n in names) and any(n == "std::iter::Iterator::take" for n in names)
+    return b.kind == "fn" and takes_map and "cw_storage_plus::Map::range" in names and (loop_form or chain_form)
+
+
+def iterator_chain(t):
+    """for collect(take(filter(map(src)))) : (src, [(method, extra args)...]) from source to sink"""
+    steps = []
+    while t[0] == "call" and "Iterator::" in t[1] and t[2]:
+        steps.append((t[1].split("::")[-1], t[2][1:]))
+        t = t[2][0]
+    return t, list(reversed(steps))
+
+
+def f_msg_field(c, pred):
+    """the term of the message field accepted by pred, as it appears in c (first occurrence)"""
+    for bi, atom in c.atoms():
+        for s_ in subterms(atom[1]):
+            if pred(s_):
+                return s_
+    for bi, t, a in call_sites(c, lambda nm: True):
+        for x in a:
+            for s_ in subterms(x):
+                if pred(s_):
+                    return s_
+    return ("none",)
+
+
+def pipeline_pager(R, prog, c, pk, P, lim, filt_p, map_p):
+    """the same obligations for the iterator-pipeline spelling:
+    range(..) [.filter_map / .map]* .filter(<consults the filter argument>) .take(limit.unwrap_or(MAX)) .collect()"""
+    from engine.analysis import ok_payload
+    rt = ok_payload(c.T.return_term())
+    src, steps = iterator_chain(rt)
+    methods = [m for m, _ in steps]
+    known = {"filter_map", "map", "filter", "take", "collect"}
+    shape = bool(steps) and methods[-1] == "collect" and set(methods) <= known and src[0] == "call" and src[1] == "cw_storage_plus::Map::range" and P(map_p[0])(src[2][0])
+    if not shape:
+        R.info("C17.R1", "pagination helper %s is written as an iterator pipeline with steps %s that this rule does not model: loop-guard / count / filter obligations NOT decided" % (pk, methods))
+        return
+    takes = [(i, a) for i, (m, a) in enumerate(steps) if m == "take"]
+    R.ob("C17.R1", "loop-guard", len(takes) == 1 and len(takes[0][1]) == 1 and lim(takes[0][1][0]), "pipeline takes %s; expected exactly one take(limit.unwrap_or(u32::MAX))" % [fmt(a[0])[:80] for _, a in takes], fn=pk)
+    fl = P(filt_p[0])
+    filters = [(i, a) for i, (m, a) in enumerate(steps) if m == "filter" and a and a[0][0] == "closure" and any(fl(v) or any(fl(s_) for s_ in subterms(v)) for _, n, v in a[0][2])]
+    ti = takes[0][0] if takes else len(steps)
+    R.ob("C17.R1", "count-iff-push", all(m in ("filter", "filter_map", "map") for m in methods[:ti]) and methods[ti + 1:] == ["collect"], "steps %s: the items counted by take are not exactly the items collected" % methods, fn=pk)
+    good = len(filters) == 1 and filters[0][0] < ti
+    if good:
+        # in the world filter = Some and filter(v) = false the closure answers false (item dropped before it is counted)
+        clo = filters[0][1][0]
+        cc = closure_ctx(prog, clo, params={2: ("elem",)})
+        fcall = lambda t: t[0] == "call" and t[1].endswith("Fn::call") and any(fl(s_) for s_ in subterms(t[2][0]))
+        w = cc.assume_ok(lambda s_: fl(s_) or (s_[0] == "field" and fl(s_[1])), True).assume_bool(fcall, False).settle()
+        rt_ = w.T.return_term()
+        good = rt_ == ("const", "bool", False) or (rt_[0] == "call" and fcall(rt_))
+        w0 = cc.assume_ok(lambda s_: fl(s_) or (s_[0] == "field" and fl(s_[1])), False).settle()
+        good = good and w0.T.return_term() == ("const", "bool", True)
+    R.ob("C17.R1", "filtered-items-skipped", good, "the filter argument is not applied before take (or does not drop exactly the rejected items): steps %s" % methods, fn=pk)
+    R.worlds += 2
 
 
 def run(R, env):
@@ -56,6 +114,10 @@ def run(R, env):
                 rel = cmp_rel(atom[1], lambda x: True, lim)
                 if rel is not None:
                     guards.append((bi, atom, rel))
+        names_ = [call_name(t) or "" for _, t in b.calls()]
+        if not guards and "std::iter::Iterator::take" in names_:
+            pipeline_pager(R, prog, c, pk, P, lim, filt_p, map_p)
+            continue
         R.ob("C17.R1", "loop-guard", len(guards) == 1 and guards[0][2] in ({"<"}, {">", "="}), "limit comparisons: %s; expected exactly `taken < limit.unwrap_or(u32::MAX)` (or its complement with the branches exchanged)" % [sorted(g[2]) for g in guards], fn=pk)
         if len(guards) == 1:
             gbi, gatom, grel = guards[0]
@@ -131,14 +193,28 @@ def run(R, env):
         if filt is None:
             R.ob("C17.R2", v + ":no-filter", f[0] == "agg" and f[2] == "None", "filter = %s; expected None" % fmt(f)[:80], loc=c.body.loc(bi), fn=c.body.key)
         else:
-            okf = f[0] == "call" and f[1] == "std::option::Option::map" and msg_field(f[2][0], v, filt)
-            if okf:
-                outer = closure_result(prog, f[2][1], params={2: ("want",)})
+            # world by world: filter = Some(|item| item.<filt> == wanted) when the message names a value, None otherwise
+            from engine.analysis import resolve_terms
+            sp = lambda t_, v=v, filt=filt: msg_field(t_, v, filt)
+            okf = True
+            for want_some in (True, False):
+                cw = c.assume_ok(sp, want_some).settle()
+                if bi not in cw.T.reach:
+                    okf = False
+                    continue
+                blk = cw.body.blocks[bi]
+                fw = cw.T.operand(blk["term"]["args"][5], bi, len(blk["stmts"]))
+                fw = resolve_terms(prog, fw, 2, None, cw.assumptions)
+                if not want_some:
+                    okf = okf and fw[0] == "agg" and fw[2] == "None"
+                    continue
                 inner = None
-                for s_ in subterms(outer or ("none",)):
-                    if s_[0] == "closure":
-                        inner = closure_result(prog, s_, params={2: ("item",)})
-                okf = inner is not None and inner[0] == "call" and inner[1] == "std::cmp::PartialEq::eq" and {norm(inner[2][0]), norm(inner[2][1])} == {norm(("field", ("item",), filt)), norm(("want",))}
+                if fw[0] == "agg" and fw[2] == "Some":
+                    for s_ in subterms(fw[3][0][2]):
+                        if s_[0] == "closure":
+                            inner = closure_result(prog, s_, params={2: ("item",)})
+                            break
+                okf = okf and inner is not None and inner[0] == "call" and inner[1] == "std::cmp::PartialEq::eq" and {norm(inner[2][0]), norm(inner[2][1])} == {norm(("field", ("item",), filt)), norm(("payload", f_msg_field(c, sp), "Ok/Some"))}
             R.ob("C17.R2", v + ":filter", okf, "filter = %s; expected %s.map(|s| |v| v.%s == s)" % (fmt(f)[:100], filt, filt), loc=c.body.loc(bi), fn=c.body.key)
         # the helper's result is what the response carries
     R.floor("C17.R2", "paged queries through the helper", len([v for v in PAGED if v in seen]), 3)
@@ -162,6 +238,17 @@ def run(R, env):
                     okk = n1 >= 1 and t1 == ("agg", "std::option::Option", "Some", (("fld", "0", ("payload", ("r",), "Ok/Some")),)) and t0[0] == "agg" and t0[2] == "None"
                 R.ob("C17.R2", "BatchesByIds:loads-each-id", okl, "per-id load = %s" % fmt(load or ("none",))[:100], loc=c.body.loc(bi), fn=c.body.key)
                 R.ob("C17.R2", "BatchesByIds:keeps-exactly-the-Ok-loads", okk, "the filter does not map Ok(b) -> Some(b), Err -> None", loc=c.body.loc(bi), fn=c.body.key)
+    if not found_ids:
+        # spelling B: ids.filter_map(|id| BATCHES.load(storage, id).ok())
+        for c, path in inline_walk(prog, qc, 3):
+            for bi, t, a in call_sites(c, lambda nm: nm.endswith("Iterator::filter_map")):
+                if msg_field(a[0], "BatchesByIds", "ids") and a[1][0] == "closure":
+                    found_ids = True
+                    res = closure_result(prog, a[1], params={2: ("id",)})
+                    load = res[2][0] if res is not None and res[0] == "call" and res[1] == "std::result::Result::ok" else None
+                    okl = load is not None and load[0] == "call" and load[1] == "cw_storage_plus::Map::load" and ns_of(prog, load[2][0]) == "batches" and load[2][2] == ("id",)
+                    R.ob("C17.R2", "BatchesByIds:loads-each-id", okl, "per-id load = %s" % fmt(load or res or ("none",))[:100], loc=c.body.loc(bi), fn=c.body.key)
+                    R.ob("C17.R2", "BatchesByIds:keeps-exactly-the-Ok-loads", okl, "the filter does not map Ok(b) -> Some(b), Err -> None", loc=c.body.loc(bi), fn=c.body.key)
     R.ob("C17.R2", "BatchesByIds:shape", found_ids, "BatchesByIds is not ids.map(load).filter_map(ok)", fn="staking::contract::query")
     # ------------------------------------------------------------ R3
     found_ur = False
